@@ -74,3 +74,29 @@ Print Assumptions C09_set_clear_bit.
 Theorem C09_bit_len : forall a, a <> 0 -> 2 ^ (bit_len_spec a - 1) <= Z.abs a < 2 ^ bit_len_spec a.
 Proof. exact bit_len_spec_ok. Qed.
 Print Assumptions C09_bit_len.
+
+(** word-level as-is models of the scanning kernels (any word size w > 0) *)
+From Dashu Require Import Base.Words Int.BitsWords.
+
+Theorem C09_trailing_zeros_large : forall w, 0 < w -> forall ws, wf w ws -> value w ws <> 0 ->
+  trailing_zeros_spec (value w ws) = Some (trailing_zeros_large w ws) /\ 0 <= trailing_zeros_large w ws.
+Proof. exact trailing_zeros_large_correct. Qed.
+Print Assumptions C09_trailing_zeros_large.
+
+Theorem C09_trailing_ones_large : forall w, 0 < w -> forall ws, wf w ws ->
+  trailing_ones_spec (value w ws) = Some (trailing_ones_large w ws) /\ 0 <= trailing_ones_large w ws.
+Proof. exact trailing_ones_large_correct. Qed.
+Print Assumptions C09_trailing_ones_large.
+
+(** the repaired defect F01 stays refuted: scanning from word 1 disagrees with the specification *)
+Theorem C09_trailing_ones_defective_refuted : forall w, 0 < w -> 3 <= w ->
+  trailing_ones_spec (value w [5; 0; 1]) <> Some (trailing_ones_large_defective w [5; 0; 1]).
+Proof. exact trailing_ones_defective_refuted. Qed.
+Print Assumptions C09_trailing_ones_defective_refuted.
+
+Theorem C09_bit_large : forall w, 0 < w -> forall ws n, wf w ws -> 0 <= n -> bit_large w ws n = Z.testbit (value w ws) n.
+Proof. exact bit_large_correct. Qed.
+Print Assumptions C09_bit_large.
+
+Example C09_words_nonvacuous : wf 64 [5; 0; 1] /\ value 64 [5; 0; 1] <> 0 /\ trailing_ones_large 64 [5; 0; 1] = 1.
+Proof. split; [repeat constructor; lia | split; [cbn; lia | reflexivity]]. Qed.
